@@ -1068,6 +1068,11 @@ def pol_lru(ctx, d, paths):
                         continue
                     v = e.val
                     nxt = evs[i + 1:]
+                    # a key that already has its (more recent) occurrence kept - it is in the refcounts again - is skipped
+                    has = [x for x in nxt if x.kind == 'BKHAS' and x.args[0] == N and x.args[1] == v]
+                    if has and any(x.kind == 'BRANCH' and x.args[0] == has[0].val and x.args[1] == C(True) for x in nxt) \
+                            and not [x for x in nxt if x.kind == 'BK' and x.args[0] == Q and len(x.args) > 2 and x.args[2] == v]:
+                        continue
                     re_ins = [x for x in nxt if x.kind == 'BK' and x.args[0] == Q and len(x.args) > 2 and x.args[2] == v]
                     setc = [x for x in nxt if x.kind == 'BK' and x.args[0] == N and x.args[1] == C('set') and x.args[2] == v and x.args[3] == C(1)]
                     if not (len(re_ins) == 1 and re_ins[0].args[1] == C('appendleft' if end == 'append' else 'append') and len(setc) == 1):
